@@ -645,7 +645,7 @@ class Exec(BufMixin, FlatMixin):
             self.safety(st, fr, kind, cond, node)
         r = binop(opn, a, b, ob)
         if opn == 'Mod' and is_sym(r) and r.sort() == REAL and not (is_intlike(a) and is_intlike(b)):
-            st.pc.append(z3.Implies(ZR(b) > 0, z3.And(r >= 0, r < ZR(b))))
+            self.ctx.add_axioms([z3.Implies(ZR(b) > 0, z3.And(r >= 0, r < ZR(b)))])
         return r
 
     def ev_BoolOp(self, e, st, fr):
